@@ -658,7 +658,7 @@ class ImporterRun(object):
                     self.offer(e, data, "root:" + kind, e.needs_pw, views=views)
                     if e.needs_pw:
                         self.offer(e, data, "root:" + kind, False, views=views)
-                if ":sec1priv-" in e.label:
+                if e.label.startswith("ecc:"):
                     # RFC 5915 ECPrivateKey: parameters [0] and publicKey [1] are EXPLICIT tags around ONE element
                     for kind, mut in M.explicit_wrapper_mutations(clear):
                         data, views = self.wrap(e, mut)
